@@ -58,7 +58,11 @@ func replayTest(pkgName string, imports []string, body string) string {
 	var sb strings.Builder
 	fmt.Fprintf(&sb, "package %s\n\nimport (\n\t\"fmt\"\n\t\"testing\"\n", pkgName)
 	for _, i := range imports {
-		fmt.Fprintf(&sb, "\t%q\n", i)
+		if strings.HasPrefix(i, "_ ") {
+			fmt.Fprintf(&sb, "\t_ %q\n", i[2:])
+		} else {
+			fmt.Fprintf(&sb, "\t%q\n", i)
+		}
 	}
 	sb.WriteString(")\n\nfunc TestVerifReplay(t *testing.T) {\n\tfail := func(f string, a ...interface{}) { fmt.Println(\"VERIF-REPLAY-FAIL \" + fmt.Sprintf(f, a...)) }\n\t_ = fail\n")
 	sb.WriteString(body)
